@@ -8,7 +8,6 @@ import (
 	"fmt"
 	"math"
 	"math/rand/v2"
-	"os"
 	"sort"
 	"strings"
 
@@ -683,9 +682,6 @@ func exploreLouvain(t *vlib.T, what string, in *louvainInput, run func(src rand.
 				panicked = p
 			}
 		}()
-		if os.Getenv("C15_DEBUG") != "" {
-			fmt.Fprintf(os.Stderr, "RUN %s key=%s\n", what, t.Key)
-		}
 		ls = run(src)
 	}
 	maxDepth := 0
@@ -768,6 +764,7 @@ func exploreLouvain(t *vlib.T, what string, in *louvainInput, run func(src rand.
 		if maxRuns > 0 && runs >= maxRuns {
 			if len(stack) > 0 {
 				t.Count("capped_explorations", 1)
+				t.Incomplete(fmt.Sprintf("%s: more than %d shuffle sequences with <= %d deviations", what, maxRuns, maxDev))
 			}
 			break
 		}
